@@ -166,8 +166,8 @@ func main() {
 			tasks = append(tasks, &task{name: "replay", calls: []*Call{c}})
 		}
 	} else {
-		nCalls := o.Count(20000, 1000000)
-		nTpl := o.Count(2000, 60000)
+		nCalls := o.Count(60000, 1500000)
+		nTpl := o.Count(5000, 100000)
 		tasks = append(tasks, sweepTasks(r.Fork("sweep"), nCalls)...)
 		tasks = append(tasks, templateTasks(r.Fork("templates"), nTpl)...)
 		tasks = append(tasks, corrTasks(r.Fork("corr"), o)...)
